@@ -68,7 +68,7 @@ func main() {
 			vn := variantNames[v]
 			// 1. scripted boundary schedules (the histories the property's clauses are about), every ratio
 			if want(e, vn+"/scripted") {
-				for _, ratio := range []int{1, 2, 3, 10} {
+				for _, ratio := range append([]int{1, 2, 3, 10}, bigRatios...) {
 					for _, prime := range primesFor(v) {
 						for si := range scripts {
 							cf := scriptCfg(v, ratio, prime, e)
